@@ -428,7 +428,7 @@ class SymBytes:
                         'ascii', b'', i, i + 1, 'ordinal not in range(128)'))
                 out.append(v)
             else:
-                ch = SymChar.of_term(t)
+                ch = SymChar.of_term(t, _BYTE)
                 if ch.in_set(_HIGH):
                     raise core.deliberate(UnicodeDecodeError(
                         'ascii', b'', i, i + 1, 'ordinal not in range(128)'))
@@ -468,6 +468,7 @@ class SymBytes:
 
 
 _HIGH = frozenset(range(128, 256))
+_BYTE = frozenset(range(256))
 
 
 def asbytes(x):
